@@ -36,6 +36,14 @@ def one(args):
     inc = rng.random() < 0.4
     text, meta = scriptgen.gen_script(rng, incremental=inc, named=rng.random() < 0.5, queries=("model", "value", "assignment"),
                                       options=(":produce-assignments true",) if rng.random() < 0.6 else (), big=rng.random() < 0.2)
+    # option vectors that change how the model is produced: SatELite-style elimination + model extension (non-incremental mode,
+    # one query only), no top-level substitutions
+    r2 = random.Random(seed * 15485863 + idx)
+    k = r2.random()
+    if k < 0.3 and not inc and text.count("(check-sat)") == 1 and "(push" not in text:
+        text = "(set-option :incremental 0)\n" + text
+    elif k < 0.4:
+        text = "(set-option :do-substitutions 0)\n" + text
     rc, res, out, err = sc.run_aligned(text, timeout=30)
     return text, meta, rc, res, out, err
 
@@ -99,6 +107,11 @@ def run(ctx):
                 last_model, last_frames, last_sig = ans, frames, sig
                 ctx.case(key=(text, k), nontrivial=len(A) > 0, kind="model:%s:%s" % (logic, "incr" if meta["incremental"] else "single"),
                          sample=dict(script=text, check_index=k, verdict=ev if "error" in ev else dict(ok=ev["ok"], asserts=ev["asserts"])))
+                if "error" in ev and "abstract value of an interpreted sort" in ev["error"]:
+                    ctx.violation("get-model:not-a-value:abstract-interpreted-sort:%s" % logic,
+                                  "the printed model uses an abstract value of an interpreted sort (%s), which is not a value of that sort" % ev["error"],
+                                  dict(script=text, model=sx_str(ans)))
+                    continue
                 if "error" in ev:
                     ctx.tie_broken("model-reading", ev["error"], dict(script=text, model=sx_str(ans)))
                     continue
@@ -136,7 +149,7 @@ def run(ctx):
                     if mv == "none":
                         continue   # division by zero etc.: SMT-LIB leaves the value open
                     if pv is None or str(pv).startswith("unreadable"):
-                        ctx.violation("get-value:not-a-value:%s" % ("uf-application" if any(f + " " in sx_str(pair[1]) for f in ("(f", "(g", "(h", "(q")) else "other"),
+                        ctx.violation("get-value:not-a-value:%s" % ("uf-application" if any(f + " " in sx_str(pair[1]) for f in ("(f", "(g", "(h", "(q", "(bf", "(bq")) else "other"),
                                       "get-value answers %s for %s, which is not a value (the printed model gives %s)" % (sx_str(pair[1]), sx_str(t), mv),
                                       dict(script=text, term=sx_str(t), printed=sx_str(pair[1]), model_value=mv, model=sx_str(last_model)))
                     elif sc.canon_value(mv) != sc.canon_value(pv):
